@@ -8,7 +8,7 @@ CONSTANTS
   JCmds = {"poll", "hdrop", "cancel", "detach"}
   HCmds = {"tick", "clear", "execdrop"}
   Spurious = TRUE
-  Strict = FALSE
-  Fix = {}
+  Strict = TRUE
+  Fix = {"D10a", "D10b", "D11", "D12"}
 SPECIFICATION Spec
 INVARIANTS NoErr HomeOnly ExactlyOnce NoWakerLeak RcMatches NoLostJoinWake PendingBound ScntOk
